@@ -105,6 +105,20 @@ META["C08"] = {
     "require": {"quick": {"sources_covered": 8}, "thorough": {"sources_covered": 8}},
 }
 
+META["C07"] = {
+    "title": "Scheduler-moving operators preserve the source's sequence",
+    "rule": "cases = (one or two of observe_on / delay / delay_at / delay_subscription / delay_subscription_at / subscribe_on in local or _threads form, optionally between transparent operators, timed script of 1..n uniquely numbered items (quick n=5, thorough n=9) with terminal none/complete/error and gaps {0,1,2,5,10,60} ms, delays {0,1,5,50} ms, instants {past, now, +40ms, +1h}, executor class fifo (FIFO task order, equal deadlines woken in creation order) or any-order (any ready task next, equal deadlines in any order), prompt or late schedule, schedule seed). Subscription-moving operators get a cold source. Non-trivial: at least two tasks were ready at once or a delay was pending across an input event; distinct = hash(case). A violation is blamed on the first scheduler operator of the case that shows the same violation kind alone.",
+    "assumptions": COMMON_ASSUME + [
+        "item identity by unique ids; 'never earlier' is judged on virtual stamps: delivery >= emission + sum of configured delays; for _at forms the real time the case took (+1 ms) is the tolerance",
+        "the any-order executor models a k-worker pool; the real futures ThreadPool is not under the explorer's control",
+    ],
+    "technique": "runtime monitoring: unique-id order/completeness monitor and virtual-time delay monitor on real observe_on/delay/subscribe_on pipelines, with the run order of ready tasks and equal-deadline timers chosen by the explorer through the VerifScheduler hook",
+    "level_text": "Exploration over sampled scripts and task orders under two executor models.",
+    "level_note": "Trusted: virtual clock, arena executor behind the VerifScheduler hook (the library's own remote_handle / Remote::poll / delay-await code runs unchanged).",
+    "design_ref": "DESIGN.md §5 C07",
+    "require": {"quick": {"runs_where_task_order_was_a_choice": 10000, "operators_covered": 8}, "thorough": {"operators_covered": 8}},
+}
+
 
 # properties without a check yet are listed here with the reason; the list shrinks as checks land
 ALL_IDS = ['C01', 'C02', 'C03', 'C04', 'C05', 'C06', 'C07', 'C08', 'C09', 'C10', 'C11', 'C12', 'C13', 'C14', 'C15', 'C16', 'C17', 'C18', 'C19', 'C20']
